@@ -44,7 +44,8 @@ def configs(tier, seed):
 def gen_workload(r):
   nm = r.randint(1, 6)
   metrics = ['w%d' % i for i in range(nm)] + (['tag;a=b'] if r.random() < 0.2 else []) + ([''] if r.random() < 0.1 else []) + \
-    ([r.choice(['req;legacy', 'a;=b', 'x;k=', 'carbon.agents.h.cpuUsage', 'carbon.relays.r.sent;a=b', 'é.ü;t=é'])] if r.random() < 0.3 else [])
+    ([r.choice(['req;legacy', 'a;=b', 'x;k=', 'carbon.agents.h.cpuUsage', 'carbon.relays.r.sent;a=b', 'é.ü;t=é'])] if r.random() < 0.3 else []) + \
+    (r.choice([['w0.', 'w0'], ['.w1', 'w1'], ['w0..x', 'w0.x'], ['W0', 'w0'], ['w0 ', 'w0'], ['w0.wsp', 'w0']]) if r.random() < 0.25 else [])     # near-identical names are different series
   ops = []
   n = r.randint(3, 14)
   for i in range(n):
